@@ -5,6 +5,9 @@ pub trait FromPrimitive: Sized {
     spec fn from_usize_spec(n: usize) -> Option<Self>;
     fn from_usize(n: usize) -> (r: Option<Self>)
         ensures r == Self::from_usize_spec(n);
+    spec fn from_f64_spec(x: f64) -> Option<Self>;
+    fn from_f64(x: f64) -> (r: Option<Self>)
+        ensures r == Self::from_f64_spec(x);
 }
 pub trait Zero: Sized {
     spec fn zero_spec() -> Self;
